@@ -14,6 +14,8 @@ POOL = {
     "eolcomment": G % "eolcomment" + 'EOL = /[\\x0A\\x0D]+/;\nCOMMENT = $COMMENT;\nID = /[a-z][a-z0-9_]*/;\nstart = {ID | EOL | COMMENT | "=" | ";"};\n',
     "nows": G % "nows" + 'AB = /(a|b)+/;\nstart = {AB | "c"};\n',
     "quotes": G % "quotes" + 'QUO = "\'";\nDQ = "\\"";\nBSL = "\\\\";\nstart = {QUO | DQ | BSL | "x"};\n',
+    # inline literals: the terminal is NAMED by the text between the quotes, escapes included
+    "inlineesc": G % "inlineesc" + 'start = {"\\"" | "\\\\" | "\'" | "a\\"b" | "`" | "\\\\n" | "%d" | "{{" };\n',
     "nonascii": G % "nonascii" + 'EE = /\\x00E9+/;\nEUR = /\\x20AC/;\nID = /[a-z]+/;\nstart = {EE | EUR | ID};\n',
     "control": G % "control" + 'CTL = /[\\x01-\\x08]/;\nBEL = /\\x07\\x07/;\nID = /[a-z]+/;\nstart = {CTL | BEL | ID};\n',
     "nostate": G % "nostate" + 'IFP = /i[f]/;\nID = /[a-z]+x/;\nstart = {"if" | IFP | ID};\n',
